@@ -530,6 +530,9 @@ func (fr *Frame) backEdge(from, to *ssa.BasicBlock, cond T, st *State) {
 		}
 		phis = append(phis, phi)
 	}
+	savedBlock := fr.curBlock
+	fr.curBlock = to
+	defer func() { fr.curBlock = savedBlock }()
 	newVals := map[*ssa.Phi]Val{}
 	for _, phi := range phis {
 		v := fr.get(phi.Edges[idx])
